@@ -175,24 +175,26 @@ static DM randint(Lcg& g,size_t m,size_t n,int a=3) { DM X(m,n); for (double& x:
 static DV svals(const DM& A) { DM c=A; size_t k=std::min(A.m,A.n); DV s(k),sup(k+1); if (k==0) return s;
     LAPACKE_dgesvd(LAPACK_COL_MAJOR,'N','N',(int)A.m,(int)A.n,c.a.data(),(int)A.m,s.data(),nullptr,1,nullptr,1,sup.data()); return s; }
 static double ratio(double a,double b) { return (b>0) ? a/b : (a==0 ? 0.0 : INFINITY); }
-static double condn(const DV& s) { return (s.empty() || !(s.back()>0)) ? INFINITY : s.front()/s.back(); }
+static double condn(const DV& s) { if (s.empty()) return 1.0; return !(s.back()>0) ? INFINITY : s.front()/s.back(); }
 
 static double bitwise_same(const Matrix& M,const std::vector<double>& b) { return (M.size()==b.size() && (b.empty() || memcmp(b.data(),M.data(),b.size()*sizeof(double))==0)) ? 0.0 : INFINITY; }
+static DM ranked(Lcg& g,size_t m,size_t n,size_t rk) { if (m==0 || n==0) return DM(m,n); return (rk>=std::min(m,n)) ? randint(g,m,n) : (rk==0 ? DM(m,n) : mul(randint(g,m,rk),randint(g,rk,n))); }
+static size_t numrank(const DV& s) { size_t er=0; for (double x:s) if (x>0 && x>1e-9*s.front()) ++er; return er; }
 static FWire c13l(Reader& r,FReader&) {
     ll kind=r.z(); size_t m=r.n(), n=r.n(), rk=r.n(); Lcg g((unsigned long long)r.z());
     FWire out; out.z=Wire{ST_OK};
     auto discard=[&]{ return FWire{Wire{5},{}}; };
     switch (kind) {
     case 1: {   // Matrix::inverse : A inv = inv A = I
-        DM A=randint(g,m,m); for (size_t i=0;i<m;++i) A(i,i)+=g.next(2,6);
+        DM A=(m==0) ? DM(0,0) : randint(g,m,m); for (size_t i=0;i<m;++i) A(i,i)+=g.next(2,6);
         DV s=svals(A); double cond=condn(s); if (!(cond<1e8)) return discard();
         const Matrix MA=toM(A); std::vector<double> before(MA.data(),MA.data()+MA.size());
         DM I=ofM(MA.inverse());
         double pure = memcmp(before.data(),MA.data(),before.size()*sizeof(double))==0 ? 0.0 : INFINITY;
-        out.f={cond,nrm(sub(mul(A,I),eye(m)))/std::sqrt((double)m),nrm(sub(mul(I,A),eye(m)))/std::sqrt((double)m),pure}; return out; }
+        out.f={cond,nrm(sub(mul(A,I),eye(m)))/std::sqrt((double)std::max<size_t>(m,1)),nrm(sub(mul(I,A),eye(m)))/std::sqrt((double)std::max<size_t>(m,1)),pure}; return out; }
     case 2: case 8: {   // Matrix::pinverse : the four Moore-Penrose conditions ; 8: with a relative tolerance that cuts the rank
-        DM A = (rk==std::min(m,n)) ? randint(g,m,n) : mul(randint(g,m,rk),randint(g,rk,n));
-        DV s=svals(A); size_t er=0; for (double x:s) if (x>1e-9*s.front() && x>0) ++er;
+        DM A = ranked(g,m,n,rk);
+        DV s=svals(A); size_t er=numrank(s);
         double cond = er ? s.front()/s[er-1] : 1.0; if (!(cond<1e8)) return discard();
         if (er<s.size() && er>0 && s[er]>1e-13*s.front()) return discard();     // no clear numerical rank
         double reltol=0.0; size_t keep=er;
@@ -207,7 +209,7 @@ static FWire c13l(Reader& r,FReader&) {
         if (P.m!=n || P.n!=m) { out.z=Wire{6}; return out; }
         // reference: truncated SVD pseudo-inverse of rank `keep`
         DM c=A; size_t q=std::min(m,n); DM U(m,q),Vt(q,n); DV sv(q),sup(q+1);
-        LAPACKE_dgesvd(LAPACK_COL_MAJOR,'S','S',(int)m,(int)n,c.a.data(),(int)m,sv.data(),U.a.data(),(int)m,Vt.a.data(),(int)q,sup.data());
+        if (q>0) LAPACKE_dgesvd(LAPACK_COL_MAJOR,'S','S',(int)m,(int)n,c.a.data(),(int)m,sv.data(),U.a.data(),(int)m,Vt.a.data(),(int)q,sup.data());
         DM Pk(n,m); for (size_t t=0;t<keep;++t) for (size_t i=0;i<n;++i) for (size_t j=0;j<m;++j) Pk(i,j)+=Vt(t,i)*U(j,t)/sv[t];
         DM Ak(m,n); for (size_t t=0;t<keep;++t) for (size_t i=0;i<m;++i) for (size_t j=0;j<n;++j) Ak(i,j)+=U(i,t)*sv[t]*Vt(t,j);
         double cnd = keep ? sv[0]/sv[keep-1] : 1.0;
@@ -217,7 +219,7 @@ static FWire c13l(Reader& r,FReader&) {
                ratio(nrm(sub(P,Pk)),std::max(nrm(Pk),1e-300)), pure};
         return out; }
     case 3: {   // Matrix::svd : reconstruction, orthogonality, ordering (complete and economic)
-        DM A = (rk==std::min(m,n)) ? randint(g,m,n) : mul(randint(g,m,rk),randint(g,rk,n));
+        DM A = ranked(g,m,n,rk);
         bool complete = g.next(0,1)==1; size_t q=std::min(m,n);
         const Matrix MA=toM(A); std::vector<double> before(MA.data(),MA.data()+MA.size());
         Matrix U,V; SparseMatrix S; MA.svd(U,S,V,complete); const double pure=bitwise_same(MA,before);
@@ -246,26 +248,29 @@ static FWire c13l(Reader& r,FReader&) {
             out.f={cond, ratio(nrm(sub(mul(A,xv),b0)),nA*std::max(nrm(xv),1e-300)), ratio(nrm(sub(mul(A,ofM(Xm)),B)),nA*std::max(nrm(ofM(Xm)),1e-300)), bpure, pure_v};
         } else if (kind==5) {
             DM I=ofS(SA.inverse()); SymMatrix C(SA,DEEP_COPY); C.invert(); DM I2=ofS(C);
-            out.f={cond, nrm(sub(mul(A,I),eye(m)))/std::sqrt((double)m), nrm(sub(mul(A,I2),eye(m)))/std::sqrt((double)m)};
+            out.f={cond, nrm(sub(mul(A,I),eye(m)))/std::sqrt((double)std::max<size_t>(m,1)), nrm(sub(mul(A,I2),eye(m)))/std::sqrt((double)std::max<size_t>(m,1))};
         } else if (kind==6) {
-            DM c=A; std::vector<int> piv(m); LAPACKE_dgetrf(LAPACK_COL_MAJOR,(int)m,(int)m,c.a.data(),(int)m,piv.data());
+            DM c=A; std::vector<int> piv(m+1); if (m>0) LAPACKE_dgetrf(LAPACK_COL_MAJOR,(int)m,(int)m,c.a.data(),(int)m,piv.data());
             double dref=1; for (size_t i=0;i<m;++i) { dref*=c(i,i); if (piv[i]!=(int)i+1) dref=-dref; }
             double d=SA.det();
-            out.f={cond, ratio(std::fabs(d-dref),std::fabs(dref))};
+            out.f={cond, ratio(std::fabs(d-dref),std::max(std::fabs(dref),1e-300))};
         } else {
             DM I=ofS(SA.posdefinverse());
-            out.f={cond, nrm(sub(mul(A,I),eye(m)))/std::sqrt((double)m)};
+            out.f={cond, nrm(sub(mul(A,I),eye(m)))/std::sqrt((double)std::max<size_t>(m,1))};
         }
         out.f.push_back(memcmp(before.data(),SA.data(),before.size()*sizeof(double))==0 ? 0.0 : INFINITY);
         return out; }
-    case 9: {   // nullspace_projector of a wide full-row-rank matrix: P^2=P, M P = 0, P symmetric, trace = n-m
-        if (m>=n) { size_t t=m; m=n; n=t; if (m==n) ++n; }
-        DM A=randint(g,m,n); DV s=svals(A); double cond=condn(s); if (!(cond<1e8)) return discard();
+    case 9: case 10: {   // nullspace_projector, any shape and rank: P^2=P, M P = 0, P symmetric ; 10: also trace(P) = n - rank(M)
+        DM A=ranked(g,m,n,rk); DV s=svals(A); size_t er=numrank(s);
+        double cond = er ? s.front()/s[er-1] : 1.0; if (!(cond<1e8)) return discard();
+        if (er<s.size() && er>0 && s[er]>1e-13*s.front()) return discard();
         const Matrix MA=toM(A); std::vector<double> before(MA.data(),MA.data()+MA.size());
         DM P=ofM(nullspace_projector(MA)); const double pure=bitwise_same(MA,before);
         if (P.m!=n || P.n!=n) { out.z=Wire{6}; return out; }
         double trc=0; for (size_t i=0;i<n;++i) trc+=P(i,i);
-        out.f={cond, nrm(sub(mul(P,P),P)), ratio(nrm(mul(A,P)),nrm(A)), nrm(sub(tr(P),P)), std::fabs(trc-(double)(n-m)), pure};
+        const bool full = (er==std::min(m,n));
+        if (kind==9 && !full) return discard();          // rank-deficient inputs: completeness is checked by kind 10
+        out.f={cond, nrm(sub(mul(P,P),P)), ratio(nrm(mul(A,P)),std::max(nrm(A),1e-300)), nrm(sub(tr(P),P)), std::fabs(trc-(double)(n-er)), pure};
         return out; }
     }
     out.z=Wire{-1}; return out;
